@@ -70,6 +70,68 @@ theorem fast_microstep_stable (c : Chart) (e : EState) (t xs ts : List Nat) (o :
     fun l ts' a ha => foldl_pres (fun a : EState => a.stable = b) _ (fun a s ha => fast_enterState_stable c ts' a s b ha) l a ha
   split <;> exact h3 _ _ _ (h2 _ _ (h1 _ _ hb))
 
+theorem large_enterState_pristine (c : Chart) (ts : List Nat) (e : EState) (s : Nat) (b : Bool) (h : e.pristine = b) :
+    (Large.enterState c ts e s).pristine = b := by
+  unfold Large.enterState
+  simp only
+  repeat' split
+  all_goals exact h
+
+theorem large_microstep_pristine (c : Chart) (e : EState) (t xs ts : List Nat) (o : List (Nat × Nat)) :
+    (Large.microstep c e t xs ts o).pristine = e.pristine := by
+  unfold Large.microstep
+  simp only
+  generalize hb : e.pristine = b
+  have h1 : ∀ (l : List Nat) (a : EState), a.pristine = b → (l.foldl (fun e s =>
+      { e with config := e.config.filter (· != s), configPF := pfErase c s e.configPF,
+               x := (execBlocks c e.config (st c s).onexit (e.x.emit (.bx ((st c s).id)))).emit (.ax ((st c s).id)) }) a).pristine = b := by
+    intro l a ha
+    refine foldl_pres (fun a : EState => a.pristine = b) _ ?_ l a ha
+    intro a s ha
+    exact ha
+  have h2 : ∀ (l : List Nat) (a : EState), a.pristine = b → (l.foldl (fun e ti =>
+      if (tr c ti).isHistory || (tr c ti).isInitial then e
+      else { e with x := takeTrans c e.config ti e.x }) a).pristine = b := by
+    intro l a ha
+    refine foldl_pres (fun a : EState => a.pristine = b) _ (fun a ti ha => ?_) l a ha
+    split
+    · exact ha
+    · exact ha
+  have h3 : ∀ (l : List Nat) (ts' : List Nat) (a : EState), a.pristine = b → (l.foldl (Large.enterState c ts') a).pristine = b :=
+    fun l ts' a ha => foldl_pres (fun a : EState => a.pristine = b) _ (fun a s ha => large_enterState_pristine c ts' a s b ha) l a ha
+  split <;> exact h3 _ _ _ (h2 _ _ (h1 _ _ hb))
+
+theorem fast_enterState_pristine (c : Chart) (ts : List Nat) (e : EState) (s : Nat) (b : Bool) (h : e.pristine = b) :
+    (Fast.enterState c ts e s).pristine = b := by
+  unfold Fast.enterState
+  simp only
+  repeat' split
+  all_goals exact h
+
+theorem fast_microstep_pristine (c : Chart) (e : EState) (t xs ts : List Nat) (o : List (Nat × Nat)) :
+    (Fast.microstep c e t xs ts o).pristine = e.pristine := by
+  unfold Fast.microstep
+  simp only
+  generalize hb : e.pristine = b
+  have h1 : ∀ (l : List Nat) (a : EState), a.pristine = b → (l.foldl (fun e s =>
+      { e with config := e.config.filter (· != s),
+               x := (execBlocks c e.config (st c s).onexit (e.x.emit (.bx ((st c s).id)))).emit (.ax ((st c s).id)) }) a).pristine = b := by
+    intro l a ha
+    refine foldl_pres (fun a : EState => a.pristine = b) _ ?_ l a ha
+    intro a s ha
+    exact ha
+  have h2 : ∀ (l : List Nat) (a : EState), a.pristine = b → (l.foldl (fun e ti =>
+      if (tr c ti).isHistory || (tr c ti).isInitial then e
+      else { e with x := takeTrans c e.config ti e.x }) a).pristine = b := by
+    intro l a ha
+    refine foldl_pres (fun a : EState => a.pristine = b) _ (fun a ti ha => ?_) l a ha
+    split
+    · exact ha
+    · exact ha
+  have h3 : ∀ (l : List Nat) (ts' : List Nat) (a : EState), a.pristine = b → (l.foldl (Fast.enterState c ts') a).pristine = b :=
+    fun l ts' a ha => foldl_pres (fun a : EState => a.pristine = b) _ (fun a s ha => fast_enterState_pristine c ts' a s b ha) l a ha
+  split <;> exact h3 _ _ _ (h2 _ _ (h1 _ _ hb))
+
 theorem large_selectAndStep_stable (c : Chart) (e : EState) (ev : Option String) :
     (Large.selectAndStep c e ev).1.stable = false := by
   unfold Large.selectAndStep
